@@ -157,6 +157,7 @@ type StmtFail struct {
 	Host   string `json:"host"`
 	Prefix string `json:"prefix"`
 	Errno  int    `json:"errno"`
+	After  string `json:"after,omitempty"` // only when the sender's previous changing statement to Host had this prefix
 	FromMs int64  `json:"from_ms"`
 	ToMs   int64  `json:"to_ms"`
 }
